@@ -130,6 +130,26 @@ pub fn cache_weak(sim: &mut Sim, code_prefix: &str, d: &Delivery, pre: &CacheSna
             _ => {}
         }
     }
+    // an entry that is new or changed must be a COMPLETE record: all announced field
+    // specifiers were present in the input
+    for (k, v) in post {
+        if pre.get(k) == Some(v) {
+            continue;
+        }
+        let (announced, present) = match v {
+            TDef::Tpl { field_count, fields } => (usize::from(*field_count), fields.len()),
+            TDef::IpOpt { field_count, fields, .. } => (usize::from(*field_count), fields.len()),
+            TDef::V9Opt { scope_len, opt_len, scope, opts } => (usize::from(*scope_len / 4) + usize::from(*opt_len / 4), scope.len() + opts.len()),
+        };
+        if present < announced {
+            sim.find(
+                &format!("{}-incomplete-template-record-cached", code_prefix),
+                d.ev,
+                format!("template {:?} was cached from a record that announces {} field specifiers but only {} were in the input", k, announced, present),
+            );
+            return;
+        }
+    }
     let allowed_first =
         d.buf.len() >= 2 && sim.cfgs[d.p].allowed.contains(&(u16::from(d.buf[0]) << 8 | u16::from(d.buf[1])));
     for (k, v) in post {
